@@ -193,3 +193,48 @@ func CardConstrsOf(ps []gen.PC) []solver.CardConstr {
 	return out
 }
 
+
+// ProblemPred evaluates a *parsed* problem without solving it, reading only exported data
+// (Units, Clauses[i].Len/Get/Weight/Cardinality, Status): an assignment is a model when it
+// makes every unit true and gives every constraint a weighted sum >= its cardinality.
+func ProblemPred(pb *solver.Problem) func(m uint64) bool {
+	if pb.Status == solver.Unsat {
+		return func(uint64) bool { return false }
+	}
+	type con struct {
+		lits, ws []int
+		card     int
+	}
+	var cons []con
+	for _, c := range pb.Clauses {
+		k := con{card: c.Cardinality()}
+		for i := 0; i < c.Len(); i++ {
+			k.lits = append(k.lits, int(c.Get(i).Int()))
+			k.ws = append(k.ws, c.Weight(i))
+		}
+		cons = append(cons, k)
+	}
+	var units []int
+	for _, u := range pb.Units {
+		units = append(units, int(u.Int()))
+	}
+	return func(m uint64) bool {
+		for _, u := range units {
+			if !oracle.LitTrue(u, m) {
+				return false
+			}
+		}
+		for _, k := range cons {
+			s := 0
+			for i, l := range k.lits {
+				if oracle.LitTrue(l, m) {
+					s += k.ws[i]
+				}
+			}
+			if s < k.card {
+				return false
+			}
+		}
+		return true
+	}
+}
